@@ -329,12 +329,14 @@ def run(out, drv, info):
                 '(owner + 0–3 of clone/shared/independent) × ' + str(n_ops) + ' operations from {snapshot of a file set built from shared blocks (paths appear/change/disappear, '
                 'repeat of the previous data), delete of own / another user\'s / unknown snapshots, clean, orphan injection}; '
                 'non-trivial = contains a successful delete or clean while ≥ 2 snapshot objects share ≥ 1 chunk; distinct = hash of (config, users, op kinds); '
-                'plus overlapping-snapshot cases (two real snapshot coroutines interleaved), non-trivial = the two file sets share a block; plus overlapping-command cases call by call (2–4 real snapshot coroutines of several users, pools of 1–5 workers, every backend call gated and released by one of 6 scheduling styles, 0–2 snapshots stored before, a reader issuing list / list-files / restore during the execution and restoring every listed snapshot at the end), non-trivial = the calls of different commands alternate ≥ k times and ≥ 1 read happens while snapshots are running; plus ALL histories up to length 2 (quick) / 3 (thorough) and a sample of length 4 over the alphabet {snapshot A, snapshot B, delete oldest own, delete newest own, clean} × 2 users in four key graphs (shared, independent, clone, unencrypted), non-trivial = ≥ 2 snapshots and a delete or clean; plus commands cut short at the k-th backend mutation (delete / clean / snapshot), non-trivial = really interrupted after ≥ 1 mutation; plus restore-tie cases (real restore vs model restore per (user, snapshot) pair)')
+                'plus deep histories (36 / 80 operations, 74 % snapshots, concurrency 1–2, ≥ 2 keys: repositories with more snapshot objects than 10–25 × the client\'s connections); plus overlapping-snapshot cases (two real snapshot coroutines interleaved), non-trivial = the two file sets share a block; plus overlapping-command cases call by call (2–4 real snapshot coroutines of several users, pools of 1–5 workers, every backend call gated and released by one of 6 scheduling styles, 0–2 snapshots stored before, a reader issuing list / list-files / restore during the execution and restoring every listed snapshot at the end), non-trivial = the calls of different commands alternate ≥ k times and ≥ 1 read happens while snapshots are running; plus ALL histories up to length 2 (quick) / 3 (thorough) and a sample of length 4 over the alphabet {snapshot A, snapshot B, delete oldest own, delete newest own, clean} × 2 users in four key graphs (shared, independent, clone, unencrypted), non-trivial = ≥ 2 snapshots and a delete or clean; plus commands cut short at the k-th backend mutation (delete / clean / snapshot), non-trivial = really interrupted after ≥ 1 mutation; plus restore-tie cases (real restore vs model restore per (user, snapshot) pair)')
     out.assumptions = ['ideal cryptography: digest = content id, MAC names injective per key family (DESIGN.md §4)',
                        'destructive commands (delete, clean) do not overlap with other commands (README)',
                        'unencrypted repository = one family (no keys)',
                        'CPython, asyncio, cryptography, hashlib; memory backend with the Backend interface']
     X.run(out, drv, 'C02', n_hist, n_ops, ORACLES, H.nontrivial, EXTRA)
+    # deep histories: many snapshot objects per client connection (more than any window / batch sized from --concurrent), several keys
+    X.run(out, drv, 'C02-deep', 16 if quick else 160, 36 if quick else 80, ORACLES, H.nontrivial, EXTRA)
     # overlapping commands, call by call: k real snapshot coroutines + a reader, gated; replayed on the concurrent model
     X.run_conc(out, drv, 'C02-conc', 48 if quick else 600, 'c02')
     # overlapping snapshots
